@@ -78,9 +78,12 @@ def _verify(F, sc, rd_meta, records_read, desc, info):
 
 def _read(F, fo):
     r = F.reader(fo)
+    recs = list(r)
+    # schema / codec / metadata are asked for after the iteration: a reader that parses its header
+    # lazily is within the property
     meta = {"canonical": F.schema.to_parsing_canonical_form(r.writer_schema), "codec": r.codec,
             "metadata": dict(r.metadata)}
-    return meta, list(r)
+    return meta, recs
 
 
 def run_one(ch, ctx):
